@@ -21,7 +21,7 @@ RULE = (
 )
 TIERS = {"quick": {"shards": 8, "n": 160, "budget_s": 220}, "thorough": {"shards": 16, "n": 2000, "budget_s": 2700}}
 FLOOR = {"quick": 60, "thorough": 4000}
-REQUIRED_LABELS = {"quick": ["mixed-kinds-in-one-module", "in:class", "in:function", "in:argparse", "in:json", "in:dir", "emit:class", "emit:function", "emit:argparse", "emit:pydantic", "emit:json_schema", "emit:sqlalchemy", "existing-output", "infer-imports", "prepend"], "thorough": []}
+REQUIRED_LABELS = {"quick": ["mixed-kinds-in-one-module", "in:class", "in:function", "in:argparse", "in:json", "in:dir", "emit:class", "emit:function", "emit:argparse", "emit:pydantic", "emit:json_schema", "emit:sqlalchemy", "existing-output", "infer-imports", "prepend", "bases:mixins-first"], "thorough": []}
 ASSUMPTIONS = [
     "input symbols are produced by cdd's own emitters from generated interfaces of the common domain (round-trip clean by C02)",
     "SQLAlchemy-class and Table inputs are outside the generated domain (finding P37)",
@@ -308,12 +308,62 @@ def oracle(case):
     return r
 
 
+# ---- metamorphic layer: `--parse infer` must choose the parser the input calls for ----------------------------------
+# A SQLAlchemy model as input (the emitters' own output with the base-class list varied: `Base` alone, mixins first,
+# mixins last).  What `gen` names such symbols is P37's matter; THIS layer only demands that `--parse infer` writes the
+# same bytes as the explicit `--parse sqlalchemy` on the same file (or fails where that fails).
+@st.composite
+def infer_case(draw):
+    ir = draw(gen_ir.interface("common", min_params=1, max_params=4, returns=False))
+    return {"ir": ir, "bases": draw(st.sampled_from(["Base", "Base", "TimestampMixin, Base", "Base, TimestampMixin", "AuditMixin, TimestampMixin, Base"])),
+            "emit": draw(st.sampled_from(["class", "argparse", "function", "sqlalchemy"])), "cls": draw(st.sampled_from(["User", "Item", "LogEntry"])), "metamorphic": "infer"}
+
+
+def oracle_infer(case):
+    r = Result()
+    r.label("infer-vs-explicit", "bases:" + ("Base-only" if case["bases"] == "Base" else "Base-first" if case["bases"].startswith("Base") else "mixins-first"))
+    d = tempfile.mkdtemp(prefix="c19i_", dir="/dev/shm" if os.path.isdir("/dev/shm") else None)
+    try:
+        with core.quiet():
+            src, _ = hops.emit_src("sqlalchemy", gen_ir.to_ir(case["ir"]), class_name=case["cls"], table_name=case["cls"].lower())
+        src = src.replace("class %s(Base)" % case["cls"], "class %s(%s)" % (case["cls"], case["bases"]), 1)
+        if "class %s(%s)" % (case["cls"], case["bases"]) not in src:
+            raise core.HarnessError("could not vary the bases of the emitted model:\n%s" % src[:300])
+        ip = os.path.join(d, "models.py")
+        with open(ip, "w") as f:
+            f.write(src + "\n")
+        outs = {}
+        for parse in ("sqlalchemy", "infer"):
+            op = os.path.join(d, "out_%s.py" % parse)
+            try:
+                with core.quiet():
+                    cdd.__main__.main(["gen", "--name-tpl", "{name}Gen", "--input-mapping", ip, "--parse", parse, "--emit", case["emit"], "-o", op])
+                outs[parse] = open(op).read() if os.path.exists(op) else "<no file>"
+            except BaseException as e:
+                if isinstance(e, (core.CaseTimeout, KeyboardInterrupt)):
+                    raise
+                outs[parse] = "<raises %s>" % type(e).__name__
+                r.exc.append("infer-layer %s %s" % (parse, core.exc_bucket(e)))
+        if outs["infer"] != outs["sqlalchemy"]:
+            r.fail("infer-differs-from-explicit", "bases (%s), --emit %s: --parse infer gives %r, --parse sqlalchemy gives %r" % (case["bases"], case["emit"], outs["infer"][:300], outs["sqlalchemy"][:300]))
+        r.nontrivial = case["bases"] != "Base" and not outs["sqlalchemy"].startswith("<")
+    finally:
+        shutil.rmtree(d, ignore_errors=True)
+    return r
+
+
+def layer_infer(ctx):
+    ctx.run_given("infer-vs-explicit", infer_case(), oracle_infer, max(10, ctx.cfg["n"] // 4))
+
+
 def layer_main(ctx):
     ctx.run_given("gen", strategy(ctx), oracle, ctx.cfg["n"])
 
 
-LAYERS = [("gen", layer_main)]
+LAYERS = [("gen", layer_main), ("infer-vs-explicit", layer_infer)]
 
 
 def replay(case):
+    if case.get("metamorphic") == "infer":
+        return oracle_infer(case)
     return oracle(case)
